@@ -486,6 +486,7 @@ pub fn result_json(run: &Run, scenario: &str) -> Value {
         "tail": tail,
         "all_events": all_events,
         "tasks_spawned": vrt::sched::tasks_spawned(),
+        "c08_corrupted": run.observations.iter().find(|(l, _, _)| l == "c08_corrupted").map(|(_, _, v)| v.clone()),
         "disk_ops": seams::disk_ops(),
     })
 }
